@@ -52,6 +52,7 @@ def main(tier: str, seed: int, replay: str | None = None) -> int:
     C.force_repo_on_path()
     rep = C.Report("C03", tier, seed)
     rep.proof_stage()
+    rep.proof_stage("C03_core")     # unconditional soundness for the constraint-free fragment
     rng = random.Random(seed)
     nh, npg = (12, 50) if tier == "quick" else (120, 100)
     items = []
@@ -110,8 +111,8 @@ def main(tier: str, seed: int, replay: str | None = None) -> int:
                 "chains (88%) or random; non-trivial = accepted case with >= 2 applications or >= 1 constraint",
         "samples": samples, "outcome_distribution": stats, "exhaustive": False})
     rep.assumptions = [
-        "universal soundness of the engine is proved only in per-instance form (verified checker); "
-        "C03_core_sound for the constraint-free fragment is stated in props/C03.v as the open obligation",
+        "universal soundness is proved for constraint-free schemas (C03_core_sound: every satisfying grounding, "
+        "satisfiability, boundedness); for constrained schemas it is decided per instance by the verified checker",
         "unresolved variables are instantiated from a finite pool (all base types, Top, Bottom, Unit, two compound samples), at most 60 groundings per case",
     ]
     return rep.finish(C.TRUSTED)
